@@ -18,8 +18,8 @@
     Only partially formalised (see the last theorem): "every result changes only by the induced
     permutation" for operators and observables.  That part of C18 is covered by differential runs
     of the whole ED chain (harness/h_c18_phys.cpp, checks/C18.py). *)
-Require Import Bool List Arith Permutation.
-From PV Require Import Outcome Index IndexProofs Fock IndexSem.
+Require Import Bool List Arith Permutation Ring_theory.
+From PV Require Import Outcome Index IndexProofs Fock Poly PolySem IndexSem.
 
 (** prepare() returns normally: no null dereference at cpp:72, no write past the vector. *)
 Theorem prepare_total : forall (fixed order_spins : bool) (ss : list site),
@@ -173,19 +173,23 @@ Print Assumptions rename_is_mode_permutation.
 
 (** PARTIAL: the operator-level part of C18.
     Full statement (not proved):  [sem_permute] -- for H a polynomial in c_i, c^+_i over N modes
-      and pi a permutation of 0..N-1, the polynomial with every index i replaced by pi(i) is
+      and pi ANY permutation of 0..N-1, the polynomial with every index i replaced by pi(i) is
       conjugate to H by the signed permutation U_pi of Fock states induced by pi; consequently the
       eigenvalues are equal, <n_pi(i)>' = <n_i> and G'_{pi(i) pi(j)}(z) = G_ij(z).
-    Proved here: the statement for a single MONOMIAL acting on a basis state (PV.Fock.act_mono, the
-      model of Operator::actRight), for pi given as a product of adjacent transpositions [ks]:
-      U_pi m U_pi^{-1} = pi(m), with U_pi |s> = (-1)^(sign_of ks s) |state_perm ks s>; Pauli zeros
-      and out-of-range indices are preserved.
-    Missing: linear extension to polynomials (needs the polynomial semantics owned by C05), "every
-      permutation is a product of adjacent transpositions", and the linear algebra from conjugate
-      Hamiltonians to permuted observables.  Those steps are covered only by the differential runs
-      of the real ED chain (harness/h_c18_phys.cpp, checks/C18.py): relabelled / re-ordered /
-      mode-switched copies of random small models, eigenvalues, occupancies, <c+_i c_j> and
-      G_ij(i w_n) compared after applying the pi of [rename_is_mode_permutation]. *)
+    Proved here, for pi given as a product of adjacent transpositions [ks] (positions k with k+1 < N):
+      - [sem_permute_monomial_partial]: a monomial acting on a basis state (PV.Fock.act_mono, the
+        model of Operator::actRight):  U_pi m U_pi^{-1} = pi(m)  with
+        U_pi |s> = (-1)^(sign_of ks s) |state_perm ks s>; Pauli zeros and out-of-range indices are preserved;
+      - [sem_permute_poly_partial]: every matrix element of a polynomial (PV.PolySem.coef_poly, any
+        commutative ring of coefficients, polynomial normal-ordered or not):
+        <U_pi t| pi(P) |U_pi s> = <t| P |s>,  i.e.  pi(P) = U_pi P U_pi^{-1}.
+    Missing: "every permutation is a product of adjacent transpositions" (so that the pi of
+      [rename_is_mode_permutation] is of this form), and the linear algebra from conjugate
+      Hamiltonians / field operators to equal spectra and permuted observables.  Those steps are
+      covered only by the differential runs of the real ED chain (harness/h_c18_phys.cpp,
+      checks/C18.py): relabelled / re-ordered / mode-switched copies of random small models,
+      eigenvalues, occupancies, <c+_i c_j> and G_ij(i w_n) compared after applying the pi of
+      [rename_is_mode_permutation]. *)
 Theorem sem_permute_monomial_partial : forall (ks : list nat) (m : list Fock.op) (s : Fock.state),
   (forall k, In k ks -> S k < length s) ->
   Fock.act_mono (map (IndexSem.perm_op ks) m) (IndexSem.state_perm ks s) =
@@ -196,3 +200,15 @@ Theorem sem_permute_monomial_partial : forall (ks : list nat) (m : list Fock.op)
   end.
 Proof. exact IndexSem.sem_permute_monomial_partial. Qed.
 Print Assumptions sem_permute_monomial_partial.
+
+Theorem sem_permute_poly_partial :
+  forall (K : Type) (k0 k1 : K) (kadd kmul ksub : K -> K -> K) (kopp : K -> K),
+  ring_theory k0 k1 kadd kmul ksub kopp (@eq K) ->
+  forall (ks : list nat) (p : Poly.poly K) (s t : Fock.state),
+  (forall k, In k ks -> S k < length s) ->
+  PolySem.coef_poly K k0 k1 kadd kmul kopp (IndexSem.poly_rename K ks p)
+                    (IndexSem.state_perm ks s) (IndexSem.state_perm ks t) =
+  IndexSem.sgn K kopp (xorb (IndexSem.sign_of ks s) (IndexSem.sign_of ks t))
+               (PolySem.coef_poly K k0 k1 kadd kmul kopp p s t).
+Proof. exact IndexSem.sem_permute_poly_partial. Qed.
+Print Assumptions sem_permute_poly_partial.
